@@ -682,6 +682,8 @@ func c03Class(err error) string {
 	switch {
 	case err == nil:
 		return "ok"
+	case err == io.EOF: // the error value is io.EOF itself: readers take that for the end of a stream
+		return "eof"
 	case errors.As(err, &m):
 		return "missing"
 	case errors.As(err, &iv):
